@@ -442,6 +442,7 @@ func TestC01(t *testing.T) {
 	r := newRun(t, "C01", "exploration")
 	defer r.Finish()
 	r.Rule = "one history per (chain, taker role, deviation of the malicious maker, repetition): real SwapService + real BitcoinOnChain/LiquidOnChain validators against a scripted maker; online oracle at every RebalancePayment crossing evaluates depth, output (script from the reference builder, committed value and asset known to the adversary), invoice amount/hash and channel against ground truth. distinct = (chain, role, deviation, validator invoked, paid)"
+	r.Rule += " In addition whole-node worlds with the REAL confirmation watchers (rpc for Bitcoin/Liquid, lnd's for Bitcoin, Electrum for Liquid): an honest opening tx gets one confirmation, its block is reorganised away (below the required depth), the tx stays out for a while or for good; and: the taker is killed inside its payment call, the confirming blocks are reorganised away, the taker is restarted. Oracle: ground-truth depth of the announced tx on the best chain at every claim-payment crossing >= 3 / 2."
 	r.Assumptions = []string{"the reference watcher reports confirmations only when true (the real watchers are C20's subject)", "Lightning node decodes invoices faithfully (simulated ledger)"}
 	var cases []c01Case
 	for _, ch := range []string{"btc", "lbtc"} {
